@@ -71,7 +71,7 @@ impl Check for Signs {
         let mx = c.xs.iter().chain(c.ys.iter()).fold(0.0f64, |a, x| a.max(x.abs()));
         let finite = c.xs.iter().chain(c.ys.iter()).all(|x| x.is_finite());
         let lim_ok = (mx <= 1e150 && n <= 500) || (mx <= 1e140 && n <= 30000);
-        if n == 0 || !finite || !lim_ok || c.ys.len() != n || c.ws.len() != n || c.ws.iter().any(|w| !(*w >= 0.0 && *w <= 1e6)) {
+        if n == 0 || !finite || !lim_ok || c.ys.len() != n || c.ws.len() != n || c.ws.iter().any(|w| !(*w >= 0.0 && *w <= 1e70)) {
             o.discarded = Some("outside the C17 domain (finite, |x| <= 1e150 with n <= 500, or |x| <= 1e140)");
             return Ok(());
         }
@@ -282,12 +282,14 @@ pub fn ill_values(kind: u8, n: usize, lmag: f64, raw: &[f64]) -> Vec<f64> {
 }
 
 pub fn ill_strategy() -> impl Strategy<Value = Ill> {
-    (0u8..7, prop_oneof![3 => 1usize..12, 3 => 12usize..300, 1 => 300usize..500], -300.0..150.0f64, vec(0.0..1.0f64, 1..64), vec(0.0..1.0f64, 1..64), 0u8..7, prop_oneof![1 => Just(None), 2 => (gen::cut_mode(), gen::tree_mode()).prop_map(Some)], 0u8..7, -300.0..140.0f64, 0u8..super::c08::PATHS)
-        .prop_map(|(kind, n, lmag, raw, raw2, zm, tree, ykind, ylmag, path)| {
+    (0u8..7, prop_oneof![3 => 1usize..12, 3 => 12usize..300, 1 => 300usize..500], -300.0..150.0f64, vec(0.0..1.0f64, 1..64), vec(0.0..1.0f64, 1..64), 0u8..7, prop_oneof![1 => Just(None), 2 => (gen::cut_mode(), gen::tree_mode()).prop_map(Some)], 0u8..7, -300.0..140.0f64, 0u8..super::c08::PATHS, prop_oneof![3 => Just(0i32), 1 => proptest::sample::select(vec![-200i32, -100, -60, -40, 60, 200])])
+        .prop_map(|(kind, n, lmag, raw, raw2, zm, tree, ykind, ylmag, path, wk)| {
             let xs = ill_values(kind, n, lmag, &raw);
             let ys = ill_values(ykind, n, ylmag, &raw2);
             let wr: Vec<(f64, f64)> = raw.iter().zip(raw2.iter().cycle()).map(|(a, b)| (*a, *b)).collect();
-            let ws = super::c08::weights_for(n, &wr, zm);
+            // any non-negative weights are in C17's domain: scale by an exact power of two (the weighted
+            // mean is invariant under it, also in floating point)
+            let ws: Vec<f64> = super::c08::weights_for(n, &wr, zm).into_iter().map(|w| w * 2f64.powi(wk)).collect();
             let (cuts, merges) = match tree {
                 None => (vec![], vec![]),
                 Some((cm, tm)) => {
@@ -301,7 +303,7 @@ pub fn ill_strategy() -> impl Strategy<Value = Ill> {
 }
 
 pub fn run(cx: &Ctx) {
-    cx.set_rule("cases = ill-conditioned sequences with NO restriction on kappa: magnitudes 10^U(-300,150), relative spreads of 1e-15, one-ulp spreads, a large value mixed with values 1e-20 times smaller, subnormals, offsets 1e15 times the spread, negative near-constant data; n up to 500; all chunkings and merge trees, the pair estimators additionally through the eight ingestion paths of C08 (add, collect, extend, collect+continue); Mean, Variance, Skewness, Kurtosis, Moments4, Covariance (independent ill-conditioned y), WeightedMean/WeightedMeanWithError (weights >= 0, total > 0, zero weights placed as in C08). Oracle = sign/range predicates only: every defined variance >= 0 (NaN is a violation), error() not NaN, min - tol <= mean <= max + tol with tol = 8 n u max|x| + n 2^-1074 (weighted mean: 16, range and max over the observations with positive weight), 1 <= effective_len <= len() up to n 2^-50; plus random bin counts: variance(i), variances() in [0, total/4] up to rounding. Non-trivial = kappa > 1e12 or spread <= 4 ulp or |x| < 1e-300 or |x| > 1e100; distinct = hash of the inputs");
+    cx.set_rule("cases = ill-conditioned sequences with NO restriction on kappa: magnitudes 10^U(-300,150), relative spreads of 1e-15, one-ulp spreads, a large value mixed with values 1e-20 times smaller, subnormals, offsets 1e15 times the spread, negative near-constant data; n up to 500; all chunkings and merge trees, the pair estimators additionally through the eight ingestion paths of C08 (add, collect, extend, collect+continue); Mean, Variance, Skewness, Kurtosis, Moments4, Covariance (independent ill-conditioned y), WeightedMean/WeightedMeanWithError (weights >= 0, total > 0, zero weights placed as in C08, one case in four with all weights scaled by 2^-200 … 2^200). Oracle = sign/range predicates only: every defined variance >= 0 (NaN is a violation), error() not NaN, min - tol <= mean <= max + tol with tol = 8 n u max|x| + n 2^-1074 (weighted mean: 16, range and max over the observations with positive weight), 1 <= effective_len <= len() up to n 2^-50; plus random bin counts: variance(i), variances() in [0, total/4] up to rounding. Non-trivial = kappa > 1e12 or spread <= 4 ulp or |x| < 1e-300 or |x| > 1e100; distinct = hash of the inputs");
     cx.assume("overflow is outside the property: |x| <= 1e150 with n <= 500 keeps n^2*4*max|x|^2 below f64::MAX in the merge formulas");
     cx.label("fixed");
     cx.run_list(&Signs, vec![
